@@ -2,11 +2,16 @@ package core
 
 import (
 	"github.com/jsightapi/jsight-schema-core/notations/jschema/ischema"
+
+	"github.com/jsightapi/jsight-api-core/directive"
 )
 
 type PieceOfPathVariable struct {
 	node  ischema.Node
 	types map[string]ischema.Type
+
+	// pathDirective is the Path directive this piece was defined in (nil for an imitated piece).
+	pathDirective *directive.Directive
 
 	// temp workaround. true means that this was not gathered from Path directive,
 	// but from URL or Method-directive, imitating real rawPathVariable
